@@ -22,6 +22,11 @@ Proof. intros c. vm_compute. destruct c; tauto. Qed.
 Lemma src_cycle_err_ok : src_cycle_err = ValueErr.
 Proof. reflexivity. Qed.
 
+(* _mk_bumps_info creates from_builnums / from_rbuilds inside the loop over the components
+   (what [mk_bumps] = one independent [mk_bump] per component models) *)
+Lemma src_bump_state_ok : src_bump_state = StatePerComponent.
+Proof. reflexivity. Qed.
+
 (* ------------------------------------------------------------------ *)
 (* from a build tag to a build number                                   *)
 
@@ -395,10 +400,10 @@ Qed.
 (* ------------------------------------------------------------------ *)
 (* the registration loop                                                *)
 
-Definition reg_step (ci : cinfo) (br : nat) (acc : option (list (nat * (nat * bn)))) (p : Z * rbuild) :=
+Definition reg_step (cx : nat) (ci : cinfo) (br : nat) (acc : option (list (nat * (nat * bn)))) (p : Z * rbuild) :=
   let rb := snd p in
   if bn_eqb (rb_bn rb) fake_not_merged then acc
-  else match rb_bump rb with
+  else match rb_bump cx rb with
        | None => acc
        | Some b => match acc, rbuilds_in_bump (ci_graph ci) b with
                    | Some a, Some l => Some (a ++ map (fun x => (x, (br, rb_bn rb))) l)
@@ -406,20 +411,20 @@ Definition reg_step (ci : cinfo) (br : nat) (acc : option (list (nat * (nat * bn
                    end
        end.
 
-Definition reg_branches (ci : cinfo) (branches : list (nat * list (Z * rbuild))) acc :=
-  fold_left (fun acc br => fold_left (reg_step ci (fst br)) (snd br) acc) branches acc.
+Definition reg_branches (cx : nat) (ci : cinfo) (branches : list (nat * list (Z * rbuild))) acc :=
+  fold_left (fun acc br => fold_left (reg_step cx ci (fst br)) (snd br) acc) branches acc.
 
-Lemma registrations_unfold ci branches : registrations ci branches = reg_branches ci branches (Some []).
+Lemma registrations_unfold cx ci branches : registrations cx ci branches = reg_branches cx ci branches (Some []).
 Proof. reflexivity. Qed.
 
-Lemma reg_fold_none ci br rbs : fold_left (reg_step ci br) rbs None = None.
+Lemma reg_fold_none cx ci br rbs : fold_left (reg_step cx ci br) rbs None = None.
 Proof.
   induction rbs as [|q r IH]; [reflexivity|]. cbn [fold_left].
-  assert (reg_step ci br None q = None) as ->; [|exact IH].
-  unfold reg_step. destruct (bn_eqb _ _); [reflexivity|]. destruct (rb_bump (snd q)); reflexivity.
+  assert (reg_step cx ci br None q = None) as ->; [|exact IH].
+  unfold reg_step. destruct (bn_eqb _ _); [reflexivity|]. destruct (rb_bump cx (snd q)); reflexivity.
 Qed.
 
-Lemma reg_branches_none ci branches : reg_branches ci branches None = None.
+Lemma reg_branches_none cx ci branches : reg_branches cx ci branches None = None.
 Proof.
   induction branches as [|b r IH]; [reflexivity|]. unfold reg_branches in *. cbn [fold_left].
   rewrite reg_fold_none. exact IH.
@@ -427,19 +432,19 @@ Qed.
 
 (* component build y is registered with build number k by some reported build of [rbs]:
    a build that is not the "not merged" pseudo build, from its own bump *)
-Definition reg_src (ci : cinfo) (rbs : list (Z * rbuild)) (y : nat) (k : bn) : Prop :=
+Definition reg_src (cx : nat) (ci : cinfo) (rbs : list (Z * rbuild)) (y : nat) (k : bn) : Prop :=
   exists p b l, In p rbs /\ rb_bn (snd p) = k /\ bn_eqb k fake_not_merged = false /\
-                rb_bump (snd p) = Some b /\ rbuilds_in_bump (ci_graph ci) b = Some l /\ In y l.
+                rb_bump cx (snd p) = Some b /\ rbuilds_in_bump (ci_graph ci) b = Some l /\ In y l.
 
-Lemma reg_step_spec ci br0 a p a' : reg_step ci br0 (Some a) p = Some a' ->
+Lemma reg_step_spec cx ci br0 a p a' : reg_step cx ci br0 (Some a) p = Some a' ->
   forall y br k, In (y, (br, k)) a' <->
     In (y, (br, k)) a \/
     (br = br0 /\ exists b l, rb_bn (snd p) = k /\ bn_eqb k fake_not_merged = false /\
-                  rb_bump (snd p) = Some b /\ rbuilds_in_bump (ci_graph ci) b = Some l /\ In y l).
+                  rb_bump cx (snd p) = Some b /\ rbuilds_in_bump (ci_graph ci) b = Some l /\ In y l).
 Proof.
   unfold reg_step. destruct (bn_eqb (rb_bn (snd p)) fake_not_merged) eqn:F.
   - intros [= <-] y br k. split; [auto|]. intros [H|(_ & b & l & E1 & E2 & _)]; [exact H|]. subst k. congruence.
-  - destruct (rb_bump (snd p)) as [b|] eqn:B.
+  - destruct (rb_bump cx (snd p)) as [b|] eqn:B.
     + destruct (rbuilds_in_bump (ci_graph ci) b) as [l|] eqn:R; [|discriminate].
       intros [= <-] y br k. rewrite in_app_iff, in_map_iff. split.
       * intros [H|(x & E & Hx)]; [left; exact H|]. injection E as E1 E2 E3. subst x br k.
@@ -450,14 +455,14 @@ Proof.
     + intros [= <-] y br k. split; [auto|]. intros [H|(_ & b & l & _ & _ & E3 & _)]; [exact H|discriminate].
 Qed.
 
-Lemma reg_fold ci br0 rbs : forall a regs,
-  fold_left (reg_step ci br0) rbs (Some a) = Some regs ->
-  forall y br k, In (y, (br, k)) regs <-> In (y, (br, k)) a \/ (br = br0 /\ reg_src ci rbs y k).
+Lemma reg_fold cx ci br0 rbs : forall a regs,
+  fold_left (reg_step cx ci br0) rbs (Some a) = Some regs ->
+  forall y br k, In (y, (br, k)) regs <-> In (y, (br, k)) a \/ (br = br0 /\ reg_src cx ci rbs y k).
 Proof.
   induction rbs as [|p r IH]; intros a regs H y br k; cbn [fold_left] in H.
   - injection H as <-. unfold reg_src. split; [auto|]. intros [H|(_ & p & b & l & [] & _)]. exact H.
-  - destruct (reg_step ci br0 (Some a) p) as [a'|] eqn:E; [|rewrite reg_fold_none in H; discriminate].
-    rewrite (IH _ _ H), (reg_step_spec _ _ _ _ _ E). unfold reg_src. split.
+  - destruct (reg_step cx ci br0 (Some a) p) as [a'|] eqn:E; [|rewrite reg_fold_none in H; discriminate].
+    rewrite (IH _ _ H), (reg_step_spec _ _ _ _ _ _ E). unfold reg_src. split.
     + intros [[Hy|(Eb & b & l & R)]|(Eb & q & b & l & Hq & R)].
       * left. exact Hy.
       * right. split; [exact Eb|]. exists p, b, l. split; [left; reflexivity|exact R].
@@ -469,17 +474,17 @@ Proof.
 Qed.
 
 (* every registration comes from a reported build of the named branch, and from its own bump *)
-Lemma reg_branches_spec ci branches : forall a regs,
-  reg_branches ci branches (Some a) = Some regs ->
+Lemma reg_branches_spec cx ci branches : forall a regs,
+  reg_branches cx ci branches (Some a) = Some regs ->
   forall y br k, In (y, (br, k)) regs <->
-    In (y, (br, k)) a \/ exists rbs, In (br, rbs) branches /\ reg_src ci rbs y k.
+    In (y, (br, k)) a \/ exists rbs, In (br, rbs) branches /\ reg_src cx ci rbs y k.
 Proof.
   induction branches as [|b0 r IH]; intros a regs H y br k; unfold reg_branches in H; cbn [fold_left] in H.
   - injection H as <-. split; [auto|]. intros [H|(rbs & [] & _)]. exact H.
-  - destruct (fold_left (reg_step ci (fst b0)) (snd b0) (Some a)) as [a'|] eqn:E;
-      [|change (reg_branches ci r None = Some regs) in H; rewrite reg_branches_none in H; discriminate].
-    change (reg_branches ci r (Some a') = Some regs) in H.
-    rewrite (IH _ _ H), (reg_fold _ _ _ _ _ E). destruct b0 as [n0 rbs0]. cbn [fst snd]. split.
+  - destruct (fold_left (reg_step cx ci (fst b0)) (snd b0) (Some a)) as [a'|] eqn:E;
+      [|change (reg_branches cx ci r None = Some regs) in H; rewrite reg_branches_none in H; discriminate].
+    change (reg_branches cx ci r (Some a') = Some regs) in H.
+    rewrite (IH _ _ H), (reg_fold _ _ _ _ _ _ E). destruct b0 as [n0 rbs0]. cbn [fst snd]. split.
     + intros [[Hy|(Eb & S)]|(rbs & Hr & S)].
       * left. exact Hy.
       * right. exists rbs0. split; [left; subst; reflexivity|exact S].
@@ -494,14 +499,14 @@ Qed.
 (* never missing: what the property wants recorded at a build IS recorded,
    for every shape of parent and component history                      *)
 
-Lemma never_missing_l ci branches regs : wf (ci_graph ci) ->
-  registrations ci branches = Some regs ->
+Lemma never_missing_l cx ci branches regs : wf (ci_graph ci) ->
+  registrations cx ci branches = Some regs ->
   forall br rbs p b t y, In (br, rbs) branches -> In p rbs ->
-    bn_eqb (rb_bn (snd p)) fake_not_merged = false -> rb_bump (snd p) = Some b -> b_to b = Some t ->
+    bn_eqb (rb_bn (snd p)) fake_not_merged = false -> rb_bump cx (snd p) = Some b -> b_to b = Some t ->
     bump_spec (ci_graph ci) (b_from b) t y -> In (y, (br, rb_bn (snd p))) regs.
 Proof.
   intros W R br rbs p b t y Hbr Hp HF HB HT HS. rewrite registrations_unfold in R.
-  apply (reg_branches_spec _ _ _ _ R). right. exists rbs. split; [exact Hbr|].
+  apply (reg_branches_spec _ _ _ _ _ R). right. exists rbs. split; [exact Hbr|].
   destruct (rbuilds_in_bump_spec _ b t W HT) as (l & El & _ & Hl).
   exists p, b, l. split; [exact Hp|]. split; [reflexivity|]. split; [exact HF|]. split; [exact HB|]. split; [exact El|].
   apply Hl. exact HS.
@@ -532,6 +537,7 @@ Inductive panc (rbs : list (Z * rbuild)) : Z -> Z -> Prop :=
 | pancS i rb j k : In (i, rb) rbs -> In j (rb_parents rb) -> panc rbs j k -> panc rbs i k.
 
 Section Branch.
+Variable cx : nat.
 Variable cg : cgraph.
 Variable rbs : list (Z * rbuild).
 
@@ -541,16 +547,16 @@ Variable rbs : list (Z * rbuild).
    from-builds of a bump are exactly the to-builds of the parent builds' bumps *)
 Definition linked : Prop :=
   forall i rb, In (i, rb) rbs ->
-    (forall j, In j (rb_parents rb) -> exists rb' b', In (j, rb') rbs /\ rb_bump rb' = Some b') /\
-    (forall b, rb_bump rb = Some b ->
+    (forall j, In j (rb_parents rb) -> exists rb' b', In (j, rb') rbs /\ rb_bump cx rb' = Some b') /\
+    (forall b, rb_bump cx rb = Some b ->
        (b_to b = None -> b_from b = []) /\
        (forall f, In f (b_from b) <->
-          exists j rb' b', In j (rb_parents rb) /\ In (j, rb') rbs /\ rb_bump rb' = Some b' /\ b_to b' = Some f)).
+          exists j rb' b', In j (rb_parents rb) /\ In (j, rb') rbs /\ rb_bump cx rb' = Some b' /\ b_to b' = Some f)).
 
 (* successive pins are ancestor-ordered in the component's build graph: the build a bump moves
    to contains every build it moves from *)
 Definition pins_ordered : Prop :=
-  forall i rb b t f, In (i, rb) rbs -> rb_bump rb = Some b -> b_to b = Some t -> In f (b_from b) -> anc cg t f.
+  forall i rb b t f, In (i, rb) rbs -> rb_bump cx rb = Some b -> b_to b = Some t -> In f (b_from b) -> anc cg t f.
 
 Hypothesis L : linked.
 Hypothesis O : pins_ordered.
@@ -558,8 +564,8 @@ Hypothesis K : NoDup (map fst rbs).
 
 (* along the branch the pinned builds then contain one another *)
 Lemma panc_to i j : panc rbs i j ->
-  forall rb b rb' b' t', In (i, rb) rbs -> rb_bump rb = Some b ->
-    In (j, rb') rbs -> rb_bump rb' = Some b' -> b_to b' = Some t' ->
+  forall rb b rb' b' t', In (i, rb) rbs -> rb_bump cx rb = Some b ->
+    In (j, rb') rbs -> rb_bump cx rb' = Some b' -> b_to b' = Some t' ->
     exists t, b_to b = Some t /\ anc cg t t'.
 Proof.
   induction 1 as [i rb0 j Hi Hj|i rb0 j k Hi Hj P IH]; intros rb b rb' b' t' Hrb Hb Hrb' Hb' Ht'.
@@ -579,10 +585,10 @@ Qed.
 
 (* "in the new pin and in none of the previous pins" = "in the new pin and in the pin of no
    ancestor build of the branch" *)
-Lemma first_ship_iff i rb b t y : In (i, rb) rbs -> rb_bump rb = Some b -> b_to b = Some t ->
+Lemma first_ship_iff i rb b t y : In (i, rb) rbs -> rb_bump cx rb = Some b -> b_to b = Some t ->
   (bump_spec cg (b_from b) t y <->
    anc cg t y /\
-   forall j rb' b' t', panc rbs i j -> In (j, rb') rbs -> rb_bump rb' = Some b' -> b_to b' = Some t' ->
+   forall j rb' b' t', panc rbs i j -> In (j, rb') rbs -> rb_bump cx rb' = Some b' -> b_to b' = Some t' ->
                        ~ anc cg t' y).
 Proof.
   intros Hrb Hb Ht. destruct (L i rb Hrb) as [L1 L2]. destruct (L2 b Hb) as [_ F]. split.
@@ -605,21 +611,21 @@ End Branch.
    ancestor-ordered, over ANY component build graph (parallel sub-branches, merges) and any shape of
    the branch (forks and merges of builds), y is registered at a build iff that build ships y and
    no ancestor build of it in the branch does *)
-Lemma included_first_l ci branches regs :
-  wf (ci_graph ci) -> NoDup (map fst branches) -> registrations ci branches = Some regs ->
+Lemma included_first_l cx ci branches regs :
+  wf (ci_graph ci) -> NoDup (map fst branches) -> registrations cx ci branches = Some regs ->
   forall br rbs, In (br, rbs) branches ->
     NoDup (map fst rbs) -> NoDup (map (fun p => rb_bn (snd p)) rbs) ->
-    linked rbs -> pins_ordered (ci_graph ci) rbs ->
+    linked cx rbs -> pins_ordered cx (ci_graph ci) rbs ->
     forall i rb b t y, In (i, rb) rbs -> bn_eqb (rb_bn rb) fake_not_merged = false ->
-      rb_bump rb = Some b -> b_to b = Some t ->
+      rb_bump cx rb = Some b -> b_to b = Some t ->
       (In (y, (br, rb_bn rb)) regs <->
        anc (ci_graph ci) t y /\
-       forall j rb' b' t', panc rbs i j -> In (j, rb') rbs -> rb_bump rb' = Some b' -> b_to b' = Some t' ->
+       forall j rb' b' t', panc rbs i j -> In (j, rb') rbs -> rb_bump cx rb' = Some b' -> b_to b' = Some t' ->
                            ~ anc (ci_graph ci) t' y).
 Proof.
   intros W NB R br rbs Hbr K KB L O i rb b t y Hrb HF Hb Ht.
-  rewrite registrations_unfold in R. rewrite (reg_branches_spec _ _ _ _ R).
-  rewrite <- (first_ship_iff (ci_graph ci) rbs L O K i rb b t y Hrb Hb Ht).
+  rewrite registrations_unfold in R. rewrite (reg_branches_spec _ _ _ _ _ R).
+  rewrite <- (first_ship_iff cx (ci_graph ci) rbs L O K i rb b t y Hrb Hb Ht).
   destruct (rbuilds_in_bump_spec _ b t W Ht) as (l & El & _ & Hl).
   split.
   - intros [[]|(rbs' & Hr & p & b' & l' & Hp & E1 & _ & E3 & E4 & E5)].
@@ -634,8 +640,34 @@ Qed.
 (* ------------------------------------------------------------------ *)
 (* the same about a whole report                                        *)
 
-Definition included_at (r : report) (y : nat) : list (nat * bn) :=
-  match nfind y (r_included r) with Some l => l | None => [] end.
+(* included_at of RBuild y of component cx *)
+Definition included_at (cx : nat) (r : report) (y : nat) : list (nat * bn) :=
+  match nfind y (nth cx (r_included r) []) with Some l => l | None => [] end.
+
+Lemma nth_error_mapi_from {A B} (f : nat -> A -> B) l : forall k i,
+  nth_error (mapi_from f k l) i = option_map (f (k + i)) (nth_error l i).
+Proof.
+  induction l as [|a r IH]; intros k i; cbn [mapi_from].
+  - destruct i; reflexivity.
+  - destruct i as [|i]; cbn [nth_error option_map].
+    + rewrite Nat.add_0_r. reflexivity.
+    + rewrite IH. replace (S k + i) with (k + S i) by lia. reflexivity.
+Qed.
+
+Lemma mapi_from_length {A B} (f : nat -> A -> B) l : forall k, length (mapi_from f k l) = length l.
+Proof. induction l as [|a r IH]; intros k; cbn [mapi_from length]; [reflexivity|rewrite IH; reflexivity]. Qed.
+
+Lemma all_some_nth {A} (l : list (option A)) : forall a, all_some l = Some a ->
+  forall i o, nth_error l i = Some o -> exists x, o = Some x /\ nth_error a i = Some x.
+Proof.
+  induction l as [|[x|] r IH]; intros a H i o Hi; cbn [all_some] in H.
+  - destruct i; discriminate.
+  - destruct (all_some r) as [a'|] eqn:E; [|discriminate]. injection H as <-.
+    destruct i as [|i]; cbn [nth_error] in *.
+    + injection Hi as <-. exists x. split; reflexivity.
+    + exact (IH a' eq_refl i o Hi).
+  - discriminate.
+Qed.
 
 Lemma nfind_map_key {A V} (F : nat -> V) (l : list (nat * A)) y :
   In y (map fst l) -> nfind y (map (fun p => (fst p, F (fst p))) l) = Some (F y).
@@ -654,7 +686,7 @@ Proof.
   rewrite <- E. apply in_map. exact Hx.
 Qed.
 
-Lemma read_branches_names ci commits : forall heads prev g acc g' acc',
+Lemma read_branches_names (ci : list cinfo) commits : forall heads prev g acc g' acc',
   read_branches ci commits heads prev g acc = (g', acc') ->
   map fst acc' = rev (map fst heads) ++ map fst acc.
 Proof.
@@ -664,19 +696,27 @@ Proof.
     rewrite (IH _ _ _ _ _ H). cbn [map fst rev]. rewrite <- app_assoc. reflexivity.
 Qed.
 
-(* what parent_report hands over: the registrations of its branches, sorted out per component build *)
-Lemma parent_report_regs ci commits heads r : parent_report ci commits heads = Ok r ->
+(* what parent_report hands over: for every component the registrations of the branches made by that
+   component's loop, sorted out per component build *)
+Lemma parent_report_regs cis commits heads r : parent_report cis commits heads = Ok r ->
   (NoDup (map fst heads) -> NoDup (map fst (r_branches r))) /\
-  exists regs, registrations ci (r_branches r) = Some regs /\
-    forall y br k, In y (map fst (ci_rbs ci)) -> (In (br, k) (included_at r y) <-> In (y, (br, k)) regs).
+  forall cx ci, nth_error cis cx = Some ci ->
+  exists regs, registrations cx ci (r_branches r) = Some regs /\
+    forall y br k, In y (map fst (ci_rbs ci)) -> (In (br, k) (included_at cx r y) <-> In (y, (br, k)) regs).
 Proof.
-  unfold parent_report. destruct (read_branches ci commits heads [] g_init []) as [g acc] eqn:RB.
+  unfold parent_report. destruct (read_branches cis commits heads [] g_init []) as [g acc] eqn:RB.
   destruct (g_err g); [discriminate|].
-  destruct (registrations ci (filter (fun br => nonempty (snd br)) acc)) as [regs|] eqn:R; [|discriminate].
+  set (branches := filter (fun br => nonempty (snd br)) acc).
+  destruct (all_some _) as [inc|] eqn:AS; [|discriminate].
   intros [= <-]. cbn [r_branches]. split.
   - intros ND. apply NoDup_map_filter. rewrite (read_branches_names _ _ _ _ _ _ _ _ RB), app_nil_r.
     apply NoDup_rev. exact ND.
-  - exists regs. split; [exact R|]. intros y br k Hy. unfold included_at. cbn [r_included].
+  - intros cx ci Hci.
+    pose proof (all_some_nth _ _ AS cx) as N. rewrite nth_error_mapi_from, Hci in N. cbn [option_map plus] in N.
+    destruct (N _ eq_refl) as (x & E & Hx).
+    destruct (registrations cx ci branches) as [regs|] eqn:R; [|discriminate]. injection E as <-.
+    exists regs. split; [reflexivity|]. intros y br k Hy. unfold included_at. cbn [r_included].
+    rewrite (nth_error_nth _ _ _ Hx). unfold included_of.
     rewrite (nfind_map_key (fun y => map snd (filter (fun q => fst q =? y) regs)) (ci_rbs ci) y Hy).
     rewrite in_map_iff. split.
     + intros ([y' bk] & E & H). cbn [snd] in E. subst bk. apply filter_In in H as [H E]. cbn [fst] in E.
@@ -685,20 +725,22 @@ Proof.
       apply Nat.eqb_refl.
 Qed.
 
-Lemma included_first_report_l ci commits heads r :
-  wf (ci_graph ci) -> parent_report ci commits heads = Ok r -> NoDup (map fst heads) ->
+Lemma included_first_report_l cis commits heads r cx ci :
+  nth_error cis cx = Some ci ->
+  wf (ci_graph ci) -> parent_report cis commits heads = Ok r -> NoDup (map fst heads) ->
   forall br rbs, In (br, rbs) (r_branches r) ->
     NoDup (map fst rbs) -> NoDup (map (fun p => rb_bn (snd p)) rbs) ->
-    linked rbs -> pins_ordered (ci_graph ci) rbs ->
+    linked cx rbs -> pins_ordered cx (ci_graph ci) rbs ->
     forall i rb b t y, In (i, rb) rbs -> bn_eqb (rb_bn rb) fake_not_merged = false ->
-      rb_bump rb = Some b -> b_to b = Some t -> In y (map fst (ci_rbs ci)) ->
-      (In (br, rb_bn rb) (included_at r y) <->
+      rb_bump cx rb = Some b -> b_to b = Some t -> In y (map fst (ci_rbs ci)) ->
+      (In (br, rb_bn rb) (included_at cx r y) <->
        anc (ci_graph ci) t y /\
-       forall j rb' b' t', panc rbs i j -> In (j, rb') rbs -> rb_bump rb' = Some b' -> b_to b' = Some t' ->
+       forall j rb' b' t', panc rbs i j -> In (j, rb') rbs -> rb_bump cx rb' = Some b' -> b_to b' = Some t' ->
                            ~ anc (ci_graph ci) t' y).
 Proof.
-  intros W PR NH br rbs Hbr K KB L O i rb b t y Hrb HF Hb Ht Hy.
-  destruct (parent_report_regs _ _ _ _ PR) as (NB & regs & R & HI).
+  intros Hci W PR NH br rbs Hbr K KB L O i rb b t y Hrb HF Hb Ht Hy.
+  destruct (parent_report_regs _ _ _ _ PR) as (NB & HR).
+  destruct (HR cx ci Hci) as (regs & R & HI).
   rewrite (HI y br (rb_bn rb) Hy).
   eapply included_first_l; eauto.
 Qed.
@@ -708,21 +750,22 @@ Qed.
 
 (* pins never decrease along a parent branch (the property's domain): every bump's previous
    pins are <= its new pin in the order of build numbers *)
-Definition pins_nondecr (r : report) : Prop :=
-  forall br rbs i rb b fb, In (br, rbs) (r_branches r) -> In (i, rb) rbs -> rb_bump rb = Some b ->
+Definition pins_nondecr (cx : nat) (r : report) : Prop :=
+  forall br rbs i rb b fb, In (br, rbs) (r_branches r) -> In (i, rb) rbs -> rb_bump cx rb = Some b ->
     In fb (b_from_bns b) -> bn_leb fb (b_to_bn b) = true.
 
 (* every parent commit pins the component, branch names are distinct, pins never decrease:
    component build y is recorded at the reported parent build rb exactly when rb's pin
    contains y and no ancestor build of rb in that branch has a pin containing y *)
 Definition included_first_statement : Prop :=
-  forall ci commits heads r, wf (ci_graph ci) -> parent_report ci commits heads = Ok r ->
-    NoDup (map fst heads) -> (forall c, In c commits -> c_pin c <> None) -> pins_nondecr r ->
+  forall cis commits heads r cx ci, nth_error cis cx = Some ci ->
+    wf (ci_graph ci) -> parent_report cis commits heads = Ok r ->
+    NoDup (map fst heads) -> (forall c, In c commits -> c_pin cx c <> None) -> pins_nondecr cx r ->
     forall br rbs i rb b t y, In (br, rbs) (r_branches r) -> In (i, rb) rbs -> rb_type rb = 0%Z ->
-      rb_bump rb = Some b -> b_to b = Some t -> In y (map fst (ci_rbs ci)) ->
-      (In (br, rb_bn rb) (included_at r y) <->
+      rb_bump cx rb = Some b -> b_to b = Some t -> In y (map fst (ci_rbs ci)) ->
+      (In (br, rb_bn rb) (included_at cx r y) <->
        anc (ci_graph ci) t y /\
-       forall j rb' b' t', panc rbs i j -> In (j, rb') rbs -> rb_bump rb' = Some b' -> b_to b' = Some t' ->
+       forall j rb' b' t', panc rbs i j -> In (j, rb') rbs -> rb_bump cx rb' = Some b' -> b_to b' = Some t' ->
                            ~ anc (ci_graph ci) t' y).
 
 (* the history of DESIGN.md section 7 (the former witness): component builds 1.1.4 <- {1.1.5, 1.1.6} <- 1.1.7
@@ -732,9 +775,9 @@ Definition w_ci : cinfo :=
        [((1, 1, 4)%Z, (0, 0)); ((1, 1, 6)%Z, (0, 1)); ((1, 1, 5)%Z, (0, 2)); ((1, 1, 7)%Z, (0, 3))]
        [[0; 1; 2; 3]].
 Definition w_commits : list commit :=
-  [mkC [] false [(5, 1, 1)%Z] (Some (1, 1, 1)%Z);
-   mkC [0] false [(5, 1, 2)%Z] (Some (1, 1, 5)%Z);
-   mkC [1] false [(5, 1, 3)%Z] (Some (1, 1, 7)%Z)].
+  [mkC [] false [(5, 1, 1)%Z] [Some (1, 1, 1)%Z];
+   mkC [0] false [(5, 1, 2)%Z] [Some (1, 1, 5)%Z];
+   mkC [1] false [(5, 1, 3)%Z] [Some (1, 1, 7)%Z]].
 Definition w_heads : list (nat * nat) := [(0, 2)].
 
 Lemma w_ci_wf : wf (ci_graph w_ci).
@@ -742,9 +785,9 @@ Proof. exact w_wf. Qed.
 
 (* since d037b67 component build 0 (1.1.4) is recorded at the first build that ships it only *)
 Lemma w_included :
-  exists r, parent_report w_ci w_commits w_heads = Ok r /\
-            included_at r 0 = [(0, (5, 1, 2)%Z)] /\ included_at r 1 = [(0, (5, 1, 3)%Z)] /\
-            included_at r 2 = [(0, (5, 1, 2)%Z)] /\ included_at r 3 = [(0, (5, 1, 3)%Z)].
+  exists r, parent_report [w_ci] w_commits w_heads = Ok r /\
+            included_at 0 r 0 = [(0, (5, 1, 2)%Z)] /\ included_at 0 r 1 = [(0, (5, 1, 3)%Z)] /\
+            included_at 0 r 2 = [(0, (5, 1, 2)%Z)] /\ included_at 0 r 3 = [(0, (5, 1, 3)%Z)].
 Proof. eexists. split; [vm_compute; reflexivity|]. vm_compute. repeat split. Qed.
 
 (* the witness that remains (finding included-at-again-after-pin-left): component builds
@@ -756,29 +799,29 @@ Definition v_ci : cinfo :=
        [((1, 1, 1)%Z, (0, 0)); ((1, 1, 6)%Z, (0, 1)); ((1, 1, 5)%Z, (0, 2)); ((1, 1, 7)%Z, (0, 3))]
        [[0; 1; 2; 3]].
 Definition v_commits : list commit :=
-  [mkC [] false [(5, 1, 1)%Z] (Some (1, 1, 5)%Z);
-   mkC [0] false [(5, 1, 2)%Z] (Some (1, 1, 6)%Z);
-   mkC [1] false [(5, 1, 3)%Z] (Some (1, 1, 7)%Z)].
+  [mkC [] false [(5, 1, 1)%Z] [Some (1, 1, 5)%Z];
+   mkC [0] false [(5, 1, 2)%Z] [Some (1, 1, 6)%Z];
+   mkC [1] false [(5, 1, 3)%Z] [Some (1, 1, 7)%Z]].
 
 Lemma v_ci_wf : wf (ci_graph v_ci).
 Proof. exact w_wf. Qed.
 
 Lemma v_included :
-  exists r, parent_report v_ci v_commits w_heads = Ok r /\
-            included_at r 2 = [(0, (5, 1, 1)%Z); (0, (5, 1, 3)%Z)].
+  exists r, parent_report [v_ci] v_commits w_heads = Ok r /\
+            included_at 0 r 2 = [(0, (5, 1, 1)%Z); (0, (5, 1, 3)%Z)].
 Proof. eexists. split; vm_compute; reflexivity. Qed.
 
 Lemma included_first_refuted_l : ~ included_first_statement.
 Proof.
   intros S.
-  destruct (parent_report v_ci v_commits w_heads) as [r|e] eqn:E; [|vm_compute in E; discriminate].
-  specialize (S v_ci v_commits w_heads r v_ci_wf E).
+  destruct (parent_report [v_ci] v_commits w_heads) as [r|e] eqn:E; [|vm_compute in E; discriminate].
+  specialize (S [v_ci] v_commits w_heads r 0 v_ci eq_refl v_ci_wf E).
   vm_compute in E. injection E as <-.
-  match type of S with _ -> _ -> pins_nondecr ?r -> _ => set (R := r) in * end.
+  match type of S with _ -> _ -> pins_nondecr 0 ?r -> _ => set (R := r) in * end.
   assert (NoDup (map fst w_heads)) as NH by (repeat constructor; intros []).
-  assert (forall c, In c v_commits -> c_pin c <> None) as PIN.
+  assert (forall c, In c v_commits -> c_pin 0 c <> None) as PIN.
   { intros c [<-|[<-|[<-|[]]]]; discriminate. }
-  assert (pins_nondecr R) as PG.
+  assert (pins_nondecr 0 R) as PG.
   { intros br rbs i rb b fb Hbr. destruct Hbr as [Hbr|[]]. injection Hbr as <- <-.
     intros [H|[H|[H|[]]]]; injection H as <- <-; cbn; intros [= <-]; cbn; intros HH;
       repeat (destruct HH as [<-|HH]; [reflexivity|]); destruct HH. }
@@ -799,9 +842,9 @@ Qed.
 
 (* the guards of the proved part hold for the report of the DESIGN.md section 7 history *)
 Lemma w_guards :
-  exists r rbs, parent_report w_ci w_commits w_heads = Ok r /\ In (0, rbs) (r_branches r) /\
+  exists r rbs, parent_report [w_ci] w_commits w_heads = Ok r /\ In (0, rbs) (r_branches r) /\
     length rbs = 2 /\ NoDup (map fst rbs) /\ NoDup (map (fun p => rb_bn (snd p)) rbs) /\
-    linked rbs /\ pins_ordered (ci_graph w_ci) rbs.
+    linked 0 rbs /\ pins_ordered 0 (ci_graph w_ci) rbs.
 Proof.
   eexists. eexists. split; [vm_compute; reflexivity|]. split; [left; reflexivity|].
   split; [reflexivity|].
@@ -846,61 +889,124 @@ Proof.
   cbn [snd]. destruct h; reflexivity.
 Qed.
 
+(* ------------------------------------------------------------------ *)
+(* _mk_bumps_info: one bump per component, each computed by itself      *)
+
+Lemma mk_bumps_nth cis g cm prb cx ci : nth_error cis cx = Some ci ->
+  nth_error (mk_bumps cis g cm prb) cx = Some (mk_bump cx ci g cm prb).
+Proof. intros H. unfold mk_bumps. rewrite nth_error_mapi_from, H. reflexivity. Qed.
+
+Lemma mk_bumps_length cis g cm prb : length (mk_bumps cis g cm prb) = length cis.
+Proof. apply mapi_from_length. Qed.
+
+(* bumps.get(component cx) of a build given by its iid (None: no such build, or no bump of cx) *)
+Definition bump_at (cx : nat) (g : gst) (p : Z) : option bump :=
+  match get_rb g p with Some rb => rb_bump cx rb | None => None end.
+
+Lemma fold_left_ext_in {A B} (f f' : A -> B -> A) l : (forall a x, In x l -> f a x = f' a x) ->
+  forall a, fold_left f l a = fold_left f' l a.
+Proof.
+  induction l as [|x r IH]; intros H a; [reflexivity|]. cbn [fold_left].
+  rewrite (H a x (or_introl eq_refl)). apply IH. intros a' y Hy. apply H. right. exact Hy.
+Qed.
+
+(* the bump of component cx is a function of cx's version map, the commit's pin of cx and the
+   parent builds' bumps of cx: nothing else of the commit or of the graph built so far enters *)
+Lemma mk_bump_local cx ci g g' cm cm' prb :
+  c_pin cx cm' = c_pin cx cm -> (forall p, In p prb -> bump_at cx g' p = bump_at cx g p) ->
+  mk_bump cx ci g' cm' prb = mk_bump cx ci g cm prb.
+Proof.
+  intros EP EB. unfold mk_bump. rewrite EP.
+  destruct (nonempty (ci_bnmap ci)); [|reflexivity]. destruct (c_pin cx cm) as [pin|]; [|reflexivity].
+  match goal with |- (let '(_, _) := fold_left ?f1 _ _ in _) = (let '(_, _) := fold_left ?f2 _ _ in _) =>
+    rewrite (fold_left_ext_in f1 f2 prb) end; [reflexivity|].
+  intros acc p Hp. specialize (EB p Hp). unfold bump_at in EB.
+  destruct (get_rb g' p) as [rb'|], (get_rb g p) as [rb|].
+  - rewrite EB. reflexivity.
+  - rewrite EB. reflexivity.
+  - rewrite <- EB. reflexivity.
+  - reflexivity.
+Qed.
+
+(* the per-component loop: the entry of component cx is cx's own bump, whatever the other
+   components are, whatever the commit pins for them and whatever bumps of them the parent builds carry *)
+Lemma bumps_independent_l cis cis' g g' cm cm' prb cx ci :
+  nth_error cis cx = Some ci -> nth_error cis' cx = Some ci ->
+  c_pin cx cm' = c_pin cx cm -> (forall p, In p prb -> bump_at cx g' p = bump_at cx g p) ->
+  nth_error (mk_bumps cis g cm prb) cx = Some (mk_bump cx ci g cm prb) /\
+  nth_error (mk_bumps cis' g' cm' prb) cx = nth_error (mk_bumps cis g cm prb) cx.
+Proof.
+  intros H H' EP EB. rewrite (mk_bumps_nth _ _ _ _ _ _ H), (mk_bumps_nth _ _ _ _ _ _ H').
+  split; [reflexivity|]. f_equal. apply mk_bump_local; assumption.
+Qed.
+
+Lemma existsb_nth_error {A} (f : A -> bool) l i x : nth_error l i = Some x -> f x = true -> existsb f l = true.
+Proof.
+  intros H F. apply existsb_exists. exists x. split; [|exact F]. eapply nth_error_In. exact H.
+Qed.
+
 (* _mk_rcommits: a build commit (or the branch head) whose bump of the component is
-   not trivial becomes an RBuild carrying that bump, whatever else holds -- in
-   particular without any matching commit of its own or below it *)
-Lemma bump_reported_l ci head c cm g :
+   not trivial becomes an RBuild carrying that bump (and the bumps of all its components),
+   whatever else holds -- in particular without any matching commit of its own or below it *)
+Lemma bump_reported_l cis head c cm g cx ci : nth_error cis cx = Some ci ->
   (nonempty (c_tags cm) || (c =? head)) = true ->
   forall nw prb g1 b,
     find_new g (rc_parents_of g (c_parents cm)) = (nw, prb, g1) ->
-    mk_bump ci g1 cm prb = Some b -> is_trivial b = false ->
-    exists rb, zfind (g_cnt g) (g_cur (finalise ci head c cm g)) = Some rb /\
-               rb_bump rb = Some b /\ rb_type rb = 0%Z /\ rb_parents rb = prb /\
-               nfind c (g_selected (finalise ci head c cm g)) = Some (g_cnt g).
+    mk_bump cx ci g1 cm prb = Some b -> is_trivial b = false ->
+    exists rb, zfind (g_cnt g) (g_cur (finalise cis head c cm g)) = Some rb /\
+               rb_bump cx rb = Some b /\ rb_bumps rb = mk_bumps cis g1 cm prb /\
+               rb_type rb = 0%Z /\ rb_parents rb = prb /\
+               nfind c (g_selected (finalise cis head c cm g)) = Some (g_cnt g).
 Proof.
-  intros Hb nw prb g1 b EF EB ET.
-  assert (nonempty (ci_bnmap ci) = true) as Hrel.
-  { unfold mk_bump in EB. destruct (nonempty (ci_bnmap ci)); [reflexivity|discriminate]. }
+  intros Hci Hb nw prb g1 b EF EB ET.
+  assert (existsb (fun ci => nonempty (ci_bnmap ci)) cis = true) as Hrel.
+  { apply (existsb_nth_error _ _ _ _ Hci). unfold mk_bump in EB.
+    destruct (nonempty (ci_bnmap ci)); [reflexivity|discriminate]. }
+  assert (nth_error (mk_bumps cis g1 cm prb) cx = Some (Some b)) as HN.
+  { rewrite (mk_bumps_nth _ _ _ _ _ _ Hci), EB. reflexivity. }
+  assert (existsb nontrivial_bump (mk_bumps cis g1 cm prb) = true) as Hnt.
+  { apply (existsb_nth_error _ _ _ _ HN). cbn [nontrivial_bump]. rewrite ET. reflexivity. }
   assert (g_cnt g1 = g_cnt g) as Hc.
   { pose proof (find_new_cnt g (rc_parents_of g (c_parents cm))) as H. rewrite EF in H. exact H. }
-  unfold finalise. rewrite Hrel, Hb, EF, EB, ET.
+  unfold finalise. rewrite Hrel, Hb, EF, Hnt.
   replace (negb (c_expl cm || true || nonempty (rc_parents_of g (c_parents cm)))) with false
     by (rewrite orb_true_r; reflexivity).
   cbn [negb]. rewrite !orb_true_r. cbn [orb].
   replace (c_expl cm || true) with true by (rewrite orb_true_r; reflexivity).
   cbn iota. rewrite Hc.
-  eexists. cbn [g_cur g_selected]. split; [apply zfind_zput|]. cbn [rb_bump rb_type rb_parents].
+  eexists. cbn [g_cur g_selected]. split; [apply zfind_zput|]. cbn [rb_bumps rb_type rb_parents].
+  split; [unfold rb_bump; cbn [rb_bumps]; apply (nth_error_nth _ _ _ HN)|].
   repeat split. unfold nfind. cbn [find fst snd]. rewrite Nat.eqb_refl. reflexivity.
 Qed.
 
 (* ------------------------------------------------------------------ *)
 (* _mk_bumps_info: where a bump starts from                              *)
 
-(* the from-builds of a new bump are the to-builds of the parent builds' bumps
+(* the from-builds of a new bump are the to-builds of the parent builds' bumps OF THE SAME COMPONENT
    (or, for a parent whose pin resolved to nothing, what that parent started from) *)
-Lemma bump_from_l ci g cm prb b : mk_bump ci g cm prb = Some b ->
+Lemma bump_from_l cx ci g cm prb b : mk_bump cx ci g cm prb = Some b ->
   forall f, In f (b_from b) <->
-    exists p rb pb, In p prb /\ get_rb g p = Some rb /\ rb_bump rb = Some pb /\
+    exists p rb pb, In p prb /\ get_rb g p = Some rb /\ rb_bump cx rb = Some pb /\
                     (b_to pb = Some f \/ (b_to pb = None /\ In f (b_from pb))).
 Proof.
   unfold mk_bump. destruct (nonempty (ci_bnmap ci)); [|discriminate].
-  destruct (c_pin cm) as [pin|]; [|discriminate].
+  destruct (c_pin cx cm) as [pin|]; [|discriminate].
   set (step := fun (acc : list bn * list nat) (p : Z) => _).
   assert (forall l acc f, In f (snd (fold_left step l acc)) <->
-            In f (snd acc) \/ exists p rb pb, In p l /\ get_rb g p = Some rb /\ rb_bump rb = Some pb /\
+            In f (snd acc) \/ exists p rb pb, In p l /\ get_rb g p = Some rb /\ rb_bump cx rb = Some pb /\
                     (b_to pb = Some f \/ (b_to pb = None /\ In f (b_from pb)))) as K.
   { induction l as [|p r IH]; intros acc f; cbn [fold_left].
     - split; [auto|]. intros [H|(p & rb & pb & [] & _)]. exact H.
     - rewrite IH. unfold step. split.
       + intros [H|(q & rb & pb & Hq & R)].
         * destruct (get_rb g p) as [rb|] eqn:E1; [|left; exact H].
-          destruct (rb_bump rb) as [pb|] eqn:E2; [|left; exact H]. cbn [snd] in H.
+          destruct (rb_bump cx rb) as [pb|] eqn:E2; [|left; exact H]. cbn [snd] in H.
           destruct (b_to pb) as [t|] eqn:E3.
           -- apply nadd_In in H as [->|H]; [|left; exact H]. right. exists p, rb, pb. intuition.
           -- apply nunion_In in H as [H|H]; [left; exact H|]. right. exists p, rb, pb. intuition.
         * right. exists q, rb, pb. intuition.
       + intros [H|(q & rb & pb & [<-|Hq] & E1 & E2 & E3)].
-        * left. destruct (get_rb g p) as [rb|]; [|exact H]. destruct (rb_bump rb) as [pb|]; [|exact H]. cbn [snd].
+        * left. destruct (get_rb g p) as [rb|]; [|exact H]. destruct (rb_bump cx rb) as [pb|]; [|exact H]. cbn [snd].
           destruct (b_to pb); [apply nadd_In; right; exact H|apply nunion_In; left; exact H].
         * left. rewrite E1, E2. cbn [snd]. destruct E3 as [E3|[E3 E4]]; rewrite E3.
           -- apply nadd_In. left. reflexivity.
@@ -909,4 +1015,39 @@ Proof.
   destruct (fold_left step prb ([], [])) as [fbns frbs] eqn:EF.
   intros [= <-]. cbn [b_from]. intros f. specialize (K prb ([], []) f). rewrite EF in K. cbn [snd] in K.
   rewrite K. split; [intros [[]|H]; exact H|intros H; right; exact H].
+Qed.
+
+(* ------------------------------------------------------------------ *)
+(* two components of one parent, through the whole model                *)
+
+(* components a and b: five builds each in a line (RBuild iids 0..4 in BOTH repositories), versions
+   1.0.1 .. 1.0.5 and 2.0.1 .. 2.0.5; the parent's builds 9.0.1 .. 9.0.4 pin (a, b) =
+   (1.0.3, 2.0.1), (1.0.3, 2.0.3), (1.0.4, 2.0.4), (1.0.5, 2.0.4): the pins do not move in lock-step *)
+Definition m_ci (M : Z) : cinfo :=
+  mkCI [(0, ((M, 0, 1)%Z, [])); (1, ((M, 0, 2)%Z, [0])); (2, ((M, 0, 3)%Z, [1])); (3, ((M, 0, 4)%Z, [2]));
+        (4, ((M, 0, 5)%Z, [3]))]
+       [((M, 0, 1)%Z, (0, 0)); ((M, 0, 2)%Z, (0, 1)); ((M, 0, 3)%Z, (0, 2)); ((M, 0, 4)%Z, (0, 3));
+        ((M, 0, 5)%Z, (0, 4))]
+       [[0; 1; 2; 3; 4]].
+Definition m_commits (pb : list Z) : list commit :=
+  [mkC [] false [(9, 0, 1)%Z] [Some (1, 0, 3)%Z; Some (2, 0, nth 0 pb 0)%Z];
+   mkC [0] false [(9, 0, 2)%Z] [Some (1, 0, 3)%Z; Some (2, 0, nth 1 pb 0)%Z];
+   mkC [1] false [(9, 0, 3)%Z] [Some (1, 0, 4)%Z; Some (2, 0, nth 2 pb 0)%Z];
+   mkC [2] false [(9, 0, 4)%Z] [Some (1, 0, 5)%Z; Some (2, 0, nth 3 pb 0)%Z]].
+
+(* every build of a and of b is recorded at exactly the first parent build whose pin of ITS
+   component contains it (2.0.5 is never shipped); and what is recorded for a is the same when b's
+   pins are different (b pinned at 2.0.5 throughout, or b moving where a stands) *)
+Lemma m_included :
+  exists r, parent_report [m_ci 1; m_ci 2] (m_commits [1; 3; 4; 4]%Z) [(0, 3)] = Ok r /\
+    map (included_at 0 r) [0; 1; 2; 3; 4] =
+      [[(0, (9, 0, 1)%Z)]; [(0, (9, 0, 1)%Z)]; [(0, (9, 0, 1)%Z)]; [(0, (9, 0, 3)%Z)]; [(0, (9, 0, 4)%Z)]] /\
+    map (included_at 1 r) [0; 1; 2; 3; 4] =
+      [[(0, (9, 0, 1)%Z)]; [(0, (9, 0, 2)%Z)]; [(0, (9, 0, 2)%Z)]; [(0, (9, 0, 3)%Z)]; []] /\
+    forall pb, In pb [[5; 5; 5; 5]; [1; 1; 1; 1]; [1; 2; 2; 3]; [3; 3; 4; 5]]%Z ->
+      exists r', parent_report [m_ci 1; m_ci 2] (m_commits pb) [(0, 3)] = Ok r' /\
+                 map (included_at 0 r') [0; 1; 2; 3; 4] = map (included_at 0 r) [0; 1; 2; 3; 4].
+Proof.
+  eexists. split; [vm_compute; reflexivity|]. split; [vm_compute; reflexivity|]. split; [vm_compute; reflexivity|].
+  intros pb [<-|[<-|[<-|[<-|[]]]]]; eexists; (split; [vm_compute; reflexivity|]); vm_compute; reflexivity.
 Qed.
